@@ -675,19 +675,113 @@ struct Runner<'a> {
     fillers: usize,
     /// uniqueness probe of the untouched start state (the copy taken at BEGIN): (table, start, moved) -> classes
     base_probe: HashMap<(Table, Start, bool), Vec<(String, &'static str)>>,
+    templates: HashMap<(Table, Start), Template>,
     /// (failures as (kind, layer, at), classes) of short scripts
     cache: HashMap<Vec<u8>, (Vec<(&'static str, &'static str, usize)>, Vec<u8>)>,
     cache_max_len: usize,
     runs: u64,
 }
 
-fn file_len(t: &TestDb) -> u64 {
-    std::fs::metadata(t.dir.join("root").join("t.tbd")).map(|m| m.len()).unwrap_or(0)
+fn file_len(dir: &Path) -> u64 {
+    std::fs::metadata(dir.join("root").join("t.tbd")).map(|m| m.len()).unwrap_or(0)
+}
+
+/// Image of a database directory (created, set up, cleanly dropped): the start state every script is
+/// materialised from.  Creating a database through DDL costs ~10x more system calls than writing the
+/// image and opening it.
+struct Template {
+    /// relative path, contents (None = directory); parents before children
+    entries: Vec<(std::path::PathBuf, Option<Vec<u8>>)>,
+}
+fn walk_dir(d: &Path, rel: &Path, out: &mut Vec<(std::path::PathBuf, Option<Vec<u8>>)>, with_contents: bool) -> std::io::Result<()> {
+    let mut names: Vec<_> = std::fs::read_dir(d)?.collect::<Result<Vec<_>, _>>()?;
+    names.sort_by_key(|e| e.file_name());
+    for e in names {
+        let r = rel.join(e.file_name());
+        if e.file_type()?.is_dir() {
+            out.push((r.clone(), None));
+            walk_dir(&e.path(), &r, out, with_contents)?;
+        } else {
+            out.push((r, Some(if with_contents { std::fs::read(e.path())? } else { vec![] })));
+        }
+    }
+    Ok(())
+}
+impl Template {
+    fn capture(dir: &Path) -> Result<Template, String> {
+        let mut entries = vec![];
+        walk_dir(dir, Path::new(""), &mut entries, true).map_err(|e| format!("template capture: {e}"))?;
+        Ok(Template { entries })
+    }
+    /// write the image into `dir` (files of an earlier instance are overwritten in place)
+    fn materialise(&self, dir: &Path) -> Result<(), String> {
+        let mut have = vec![];
+        let same = dir.is_dir()
+            && walk_dir(dir, Path::new(""), &mut have, false).is_ok()
+            && have.len() == self.entries.len()
+            && have.iter().zip(self.entries.iter()).all(|(a, b)| a.0 == b.0 && a.1.is_some() == b.1.is_some());
+        if !same {
+            let _ = std::fs::remove_dir_all(dir);
+            std::fs::create_dir_all(dir).map_err(|e| e.to_string())?;
+        }
+        for (p, c) in &self.entries {
+            match c {
+                None => {
+                    if !same {
+                        std::fs::create_dir_all(dir.join(p)).map_err(|e| e.to_string())?;
+                    }
+                }
+                Some(c) => std::fs::write(dir.join(p), c).map_err(|e| format!("write {}: {e}", p.display()))?,
+            }
+        }
+        Ok(())
+    }
+}
+
+/// one opened instance of a template
+struct Inst {
+    db: Option<turdb::Database>,
+    dir: std::path::PathBuf,
+}
+impl Inst {
+    fn db(&self) -> &turdb::Database {
+        self.db.as_ref().expect("database is open")
+    }
+    fn exec(&self, sql: &str) -> Res {
+        exec(self.db(), sql)
+    }
+    /// drop the only handle (no close()) and open the directory again
+    fn reopen(&mut self) -> Result<(), String> {
+        let db = self.db.take();
+        if let Err(p) = vcore::catch(move || drop(db)) {
+            return Err(format!("PANIC while dropping the handle: {p}"));
+        }
+        match vcore::catch(|| turdb::Database::open(&self.dir).map_err(|e| format!("{e:#}"))) {
+            Ok(Ok(db)) => {
+                self.db = Some(db);
+                Ok(())
+            }
+            Ok(Err(e)) => Err(e),
+            Err(p) => Err(format!("PANIC {p}")),
+        }
+    }
+}
+impl Drop for Inst {
+    fn drop(&mut self) {
+        // harness clean-up after every observation was taken: close() makes the drop skip the final
+        // checkpoint / catalog save (fewer system calls); the directory is reused by the next instance
+        if let Some(db) = self.db.take() {
+            let _ = vcore::catch(move || {
+                let _ = db.close();
+                drop(db)
+            });
+        }
+    }
 }
 
 impl<'a> Runner<'a> {
     fn new(base: &'a Path, plant: Plant) -> Runner<'a> {
-        Runner { base, plant, fillers: 0, base_probe: HashMap::new(), cache: HashMap::new(), cache_max_len: 4, runs: 0 }
+        Runner { base, plant, fillers: 0, base_probe: HashMap::new(), templates: HashMap::new(), cache: HashMap::new(), cache_max_len: 4, runs: 0 }
     }
 
     /// find the number of rows that exactly fills the root leaf of the root-split table
@@ -701,13 +795,13 @@ impl<'a> Runner<'a> {
                 return Err(format!("calibration DDL failed: {s}"));
             }
         }
-        let l0 = file_len(&t);
+        let l0 = file_len(&t.dir);
         for i in 0..64usize {
             let r = t.exec(&Table::Split.insert_sql(101 + i as u8, 1001 + i as i64, 0));
             if !r.ok() {
                 return Err(format!("calibration insert failed: {}", r.show()));
             }
-            if file_len(&t) != l0 {
+            if file_len(&t.dir) != l0 {
                 self.fillers = i;
                 return Ok(i);
             }
@@ -715,16 +809,30 @@ impl<'a> Runner<'a> {
         Err("calibration: the table file never grew".into())
     }
 
-    fn setup(&mut self, name: &str, table: Table, start: Start) -> Result<TestDb, String> {
-        let fillers = if table == Table::Split { self.calibrate()? } else { 0 };
-        let t = TestDb::create(self.base, name)?;
-        for s in setup_sql(table, start, fillers) {
-            let r = t.exec(&s);
-            if !r.ok() {
-                return Err(format!("set-up statement failed: {} -> {}", vcore::util::clip(&s, 80), r.show()));
+    /// a database in the start state: the template image (built once per worker through real DDL/DML and a
+    /// clean drop) written to `<base>/<name>` and opened
+    fn setup(&mut self, name: &str, table: Table, start: Start) -> Result<Inst, String> {
+        if !self.templates.contains_key(&(table, start)) {
+            let fillers = if table == Table::Split { self.calibrate()? } else { 0 };
+            let mut t = TestDb::create(self.base, "template")?;
+            for s in setup_sql(table, start, fillers) {
+                let r = t.exec(&s);
+                if !r.ok() {
+                    return Err(format!("set-up statement failed: {} -> {}", vcore::util::clip(&s, 80), r.show()));
+                }
             }
+            let db = t.db.take();
+            vcore::catch(move || drop(db)).map_err(|p| format!("PANIC while closing the template: {p}"))?;
+            let tpl = Template::capture(&t.dir)?;
+            self.templates.insert((table, start), tpl);
         }
-        Ok(t)
+        let dir = self.base.join(name);
+        self.templates[&(table, start)].materialise(&dir)?;
+        match vcore::catch(|| turdb::Database::open(&dir).map_err(|e| format!("{e:#}"))) {
+            Ok(Ok(db)) => Ok(Inst { db: Some(db), dir }),
+            Ok(Err(e)) => Err(format!("open of the start state failed: {e}")),
+            Err(p) => Err(format!("PANIC in open of the start state: {p}")),
+        }
     }
 
     fn baseline_probe(&mut self, table: Table, start: Start, moved: bool) -> Result<Vec<(String, &'static str)>, String> {
@@ -763,7 +871,7 @@ impl<'a> Runner<'a> {
         let mut out = RunOut::default();
         let q = queries(sc);
         let mut t = self.setup("main", table, sc.start)?;
-        let len0 = file_len(&t);
+        let len0 = file_len(&t.dir);
         let obs0 = observe_all(t.db(), &q);
         let clone = if sc.term == Term::DropClone { Some(t.db().clone()) } else { None };
         let mut tainted: BTreeSet<&'static str> = BTreeSet::new();
@@ -819,7 +927,7 @@ impl<'a> Runner<'a> {
                     _ => {}
                 }
             }
-            if table == Table::Split && file_len(&t) != len0 {
+            if table == Table::Split && file_len(&t.dir) != len0 {
                 out.split = true;
             }
         }
@@ -1271,9 +1379,13 @@ fn main() {
     vcore::main(&C07)
 }
 
+fn cpu_ms() -> f64 {
+    let mut ru: libc::rusage = unsafe { std::mem::zeroed() };
+    unsafe { libc::getrusage(libc::RUSAGE_SELF, &mut ru) };
+    (ru.ru_utime.tv_sec + ru.ru_stime.tv_sec) as f64 * 1000.0 + (ru.ru_utime.tv_usec + ru.ru_stime.tv_usec) as f64 / 1000.0
+}
 /// development aids (counting, timing) — not part of any verdict
 fn dev(mode: &str) {
-    vcore::quiet_panics();
     match mode {
         "count" => {
             for table in TABLES {
@@ -1353,6 +1465,124 @@ fn dev(mode: &str) {
                     }
                 }
                 println!("{}: create {:.2} setup {:.2} observe {:.2} txn {:.2} clone+drop {:.2} drop+rm {:.2} ms", table.name(), acc[0], acc[1], acc[2], acc[3], acc[4], acc[5]);
+            }
+            let _ = std::fs::remove_dir_all(&base);
+        }
+        "prof2" => {
+            let base = std::path::PathBuf::from(format!("/dev/shm/turdb_verif/c07dev_{}", std::process::id()));
+            for table in [Table::Plain, Table::IntPk] {
+                // template
+                let mut tpl = TestDb::create(&base, "tpl").unwrap();
+                for s in setup_sql(table, Start::Rows12, 0) {
+                    let _ = tpl.exec(&s);
+                }
+                tpl.db = None;
+                tpl.keep();
+                let mut files = vec![];
+                fn walk(d: &std::path::Path, rel: &std::path::Path, out: &mut Vec<(std::path::PathBuf, Option<Vec<u8>>)>) {
+                    for e in std::fs::read_dir(d).unwrap() {
+                        let e = e.unwrap();
+                        let r = rel.join(e.file_name());
+                        if e.file_type().unwrap().is_dir() {
+                            out.push((r.clone(), None));
+                            walk(&e.path(), &r, out);
+                        } else {
+                            out.push((r, Some(std::fs::read(e.path()).unwrap())));
+                        }
+                    }
+                }
+                walk(&tpl.dir, std::path::Path::new(""), &mut files);
+                println!("template files: {:?}", files.iter().map(|(p, c)| (p.display().to_string(), c.as_ref().map(|c| c.len()))).collect::<Vec<_>>());
+                let n = 200;
+                let mut acc = [0f64; 6];
+                let dir = base.join("copy");
+                for it in 0..n {
+                    let t0 = std::time::Instant::now();
+                    if it == 0 {
+                        std::fs::create_dir_all(&dir).unwrap();
+                    }
+                    for (p, c) in &files {
+                        match c {
+                            None => { let _ = std::fs::create_dir_all(dir.join(p)); }
+                            Some(c) => std::fs::write(dir.join(p), c).unwrap(),
+                        }
+                    }
+                    let t1 = std::time::Instant::now();
+                    let db = turdb::Database::open(&dir).unwrap();
+                    let t2 = std::time::Instant::now();
+                    let r = exec(&db, "SELECT * FROM t");
+                    if it == 0 { println!("{}", r.show()); }
+                    let _ = exec(&db, "BEGIN");
+                    let _ = exec(&db, &Op::UpdA(1).sql(table));
+                    let _ = exec(&db, "ROLLBACK");
+                    let t3 = std::time::Instant::now();
+                    let _ = db.close();
+                    let t4 = std::time::Instant::now();
+                    drop(db);
+                    let t5 = std::time::Instant::now();
+                    for (i, d) in [t1 - t0, t2 - t1, t3 - t2, t4 - t3, t5 - t4].iter().enumerate() {
+                        acc[i] += d.as_secs_f64() * 1000.0 / n as f64;
+                    }
+                }
+                println!("{}: write files {:.2} open {:.2} stmts {:.2} close {:.2} drop {:.2} ms", table.name(), acc[0], acc[1], acc[2], acc[3], acc[4]);
+                let _ = std::fs::remove_dir_all(&base);
+            }
+        }
+        "prof3" => {
+            let base = std::path::PathBuf::from(format!("/dev/shm/turdb_verif/c07dev_{}", std::process::id()));
+            let table = Table::IntPk;
+            let mut tpl = TestDb::create(&base, "tpl").unwrap();
+            for s in setup_sql(table, Start::Rows12, 0) {
+                let _ = tpl.exec(&s);
+            }
+            tpl.db = None;
+            tpl.keep();
+            let mut files = vec![];
+            fn walk(d: &std::path::Path, rel: &std::path::Path, out: &mut Vec<(std::path::PathBuf, Option<Vec<u8>>)>) {
+                for e in std::fs::read_dir(d).unwrap() {
+                    let e = e.unwrap();
+                    let r = rel.join(e.file_name());
+                    if e.file_type().unwrap().is_dir() {
+                        out.push((r.clone(), None));
+                        walk(&e.path(), &r, out);
+                    } else {
+                        out.push((r, Some(std::fs::read(e.path()).unwrap())));
+                    }
+                }
+            }
+            walk(&tpl.dir, std::path::Path::new(""), &mut files);
+            for bg in [false, true] {
+                let (tx, rx) = std::sync::mpsc::channel::<(turdb::Database, std::path::PathBuf)>();
+                let th = std::thread::spawn(move || {
+                    for (db, dir) in rx {
+                        drop(db);
+                        let _ = std::fs::remove_dir_all(dir);
+                    }
+                });
+                let n = 300;
+                let t0 = std::time::Instant::now();
+                let c0 = cpu_ms();
+                for it in 0..n {
+                    let dir = base.join(format!("c{it}"));
+                    std::fs::create_dir_all(&dir).unwrap();
+                    for (p, c) in &files {
+                        match c {
+                            None => { let _ = std::fs::create_dir_all(dir.join(p)); }
+                            Some(c) => std::fs::write(dir.join(p), c).unwrap(),
+                        }
+                    }
+                    let db = turdb::Database::open(&dir).unwrap();
+                    let _ = exec(&db, "SELECT * FROM t");
+                    let _ = exec(&db, "BEGIN");
+                    let _ = exec(&db, &Op::UpdA(1).sql(table));
+                    let _ = exec(&db, "ROLLBACK");
+                    let _ = db.close();
+                    if bg { tx.send((db, dir)).unwrap(); } else { drop(db); let _ = std::fs::remove_dir_all(dir); }
+                }
+                let t1 = std::time::Instant::now();
+                drop(tx);
+                th.join().unwrap();
+                println!("bg={bg}: main loop {:.2} ms/script, incl. join {:.2} ms/script, cpu {:.2} ms/script", (t1 - t0).as_secs_f64() * 1000.0 / n as f64, t0.elapsed().as_secs_f64() * 1000.0 / n as f64, (cpu_ms() - c0) / n as f64);
             }
             let _ = std::fs::remove_dir_all(&base);
         }
